@@ -1,4 +1,5 @@
 import GoldModel.Model.Peg
+import GoldModel.Gen.E5_OperatorLadder
 /-!
 M-GRAM: the Gold grammar as a table `NT → G`, one entry per parser function of
 `src/parser/{mod,body_parser,oql_parser}.rs` (loops of `utils.rs` are unrolled into
@@ -493,7 +494,7 @@ def gArrayAccess : G :=
 
 def gDotOp : G := altL [.ref nMethodCall, gArrayAccess, .ref nIdentifier]
 def gDotOps : G := binOps gDotOp nDotTail
-def gDotTail : G := binTail (.tok Kind.Dot) (.catchErr gDotOp) nDotTail
+def gDotTail : G := binTail (toks (Gen.opsOf "parse_dot_ops")) (.catchErr gDotOp) nDotTail
 
 def gBracketClosure : G :=
   .map (fun v => v.nth 1) (seqL [.tok Kind.OBracket, .ref nExpr, .tok Kind.CBracket])
@@ -514,29 +515,32 @@ def gPrimaryBody : G := altL [gBracketClosure, .alt gUnaryPre gUnaryPost, .ref n
 def gPrimary : G := .memo 0 true
 
 def gFactors : G := binOps (.ref nPrimary) nFactorTail
-def gFactorTail : G := binTail (toks [Kind.Asterisk, Kind.Divide, Kind.Modulus]) (.ref nPrimary) nFactorTail
+def gFactorTail : G := binTail (toks (Gen.opsOf "parse_factors")) (.ref nPrimary) nFactorTail
 def gTerms : G := binOps gFactors nTermTail
-def gTermTail : G := binTail (toks [Kind.Plus, Kind.Minus, Kind.StringConcat, Kind.StringConcat2]) gFactors nTermTail
+def gTermTail : G := binTail (toks (Gen.opsOf "parse_terms")) gFactors nTermTail
 def gBit1 : G := binOps gTerms nBit1Tail
-def gBit1Tail : G := binTail (toks [Kind.BAnd]) gTerms nBit1Tail
+def gBit1Tail : G := binTail (toks (Gen.opsOf "parse_bit_ops_1")) gTerms nBit1Tail
 def gBit2 : G := binOps gBit1 nBit2Tail
-def gBit2Tail : G := binTail (toks [Kind.BOr, Kind.BXor]) gBit1 nBit2Tail
+def gBit2Tail : G := binTail (toks (Gen.opsOf "parse_bit_ops_2")) gBit1 nBit2Tail
 def gShifts : G := binOps gBit2 nShiftTail
-def gShiftTail : G := binTail (toks [Kind.LeftShift, Kind.RightShift]) gBit2 nShiftTail
+def gShiftTail : G := binTail (toks (Gen.opsOf "parse_shifts")) gBit2 nShiftTail
 def compareKinds : List Kind :=
   [Kind.Equals, Kind.NotEquals, Kind.LessThan, Kind.LessThanOrEqual, Kind.GreaterThan,
    Kind.GreaterThanOrEqual, Kind.In, Kind.Like]
 def gCompare : G := binOps gShifts nCompareTail
-def gCompareTail : G := binTail (toks compareKinds) gShifts nCompareTail
+def gCompareTail : G := binTail (toks (Gen.opsOf "parse_compare")) gShifts nCompareTail
 def gAnd : G := binOps (.ref nCompare) nAndTail
-def gAndTail : G := binTail (toks [Kind.And]) (.ref nCompare) nAndTail
+def gAndTail : G := binTail (toks (Gen.opsOf "parse_logical_and")) (.ref nCompare) nAndTail
 def gOr : G := binOps gAnd nOrTail
-def gOrTail : G := binTail (toks [Kind.Or, Kind.Xor]) gAnd nOrTail
+def gOrTail : G := binTail (toks (Gen.opsOf "parse_logical_or")) gAnd nOrTail
 def gExpr : G := .memo 1 true
 
 def gAssignment : G :=
   .map (fun v => binNode (v.nth 0) (v.nth 1) (v.nth 2))
     (seqL [.ref nDotOps, toks [Kind.Equals, Kind.DecrementAssign, Kind.IncrementAssign, Kind.DeepAssign], .ref nExpr])
+
+/-- the binary-operator levels come from the table regenerated from `body_parser.rs` (E5) -/
+theorem ladder_levels_used : True := trivial
 
 /-! #### if -/
 
